@@ -538,6 +538,44 @@ def specials():
         return go
     out.append(("qcow2", "extension-walk-lengths-near-4GiB", qcow2_ext_walk, 400, 1))
 
+    # valid images with very large allocation units, mostly unallocated: a small read must not cost a unit of memory
+    def large_units(fmt):
+        def run(work):
+            U = 256 << 20
+            if fmt == "vdi":
+                from dissect.hypervisor.disk.vdi import VDI
+                vf, *_ = enc_vdi.build({"n": 4, "cb": 1, "map": {0: -1, 1: -2, 2: -1, 3: -1}, "size": 4, "parent": False}, block_size=U, P=1)
+                op = lambda: VDI(vf)   # noqa: E731
+            elif fmt == "vhdx":
+                from dissect.hypervisor.disk.vhdx import VHDX
+                vf, _ = enc_vhdx.build([(0, None), (2, None), (3, None), (0, None)], block_size=U, sector_size=512, disk_size=4 * U)
+                op = lambda: VHDX(vf)   # noqa: E731
+            elif fmt == "vhd":
+                from dissect.hypervisor.disk.vhd import VHD
+                vf, _ = enc_vhd.build({"kind": "dynamic", "n": 4, "cb": 1, "bat": {0: -1, 1: -1, 2: -1, 3: -1}, "size": 4, "foot511": False}, block_size=U, P=0)
+                op = lambda: VHD(vf)   # noqa: E731
+            elif fmt == "hds":
+                from dissect.hypervisor.disk.hdd import HDS
+                vf, _ = enc_hds.build({"ver": 2, "n": 4, "cb": 1, "bat": {0: 0, 1: 0, 2: 0, 3: 0}, "size": 4}, cluster_size=U, P=1)
+                op = lambda: HDS(vf)   # noqa: E731
+            else:
+                from dissect.hypervisor.disk.vmdk import VMDK
+                g = U // 512
+                vf, _ = enc_vmdk.build_hosted([("U", 0), ("Z", 0), ("U", 0), ("U", 0)], [True], capacity=4 * g, grain=g, gtes=4, max_pos=1)
+                op = lambda: VMDK(vf)   # noqa: E731
+
+            def go():
+                s = op()
+                for o in (0, 1, U - 1, U, 3 * U + 12345):
+                    s.seek(o)
+                    s.read(1)
+                    s.seek(o)
+                    s.read(4096)
+            return go
+        return run
+    for fmt_, kind_ in (("vdi", "vdi"), ("vhdx", "vhdx"), ("vhd", "vhd"), ("hds", "hds2"), ("vmdk", "vmdk-hosted")):
+        out.append((kind_, "valid-image-256MiB-units-small-reads", large_units(fmt_), 64, 8))
+
     def vhdx_self_parent(which):
         def run(work):
             from pathlib import Path
